@@ -398,7 +398,13 @@ func checkC12(c CaseC12, info *Info) *Failure {
 					wantJ, _ = wantM.Json()
 				}
 				gotJ, gerr := j2x.JsonNewJson(listDoc, lp...)
-				if (gerr == nil) != (werr == nil) || (gerr == nil && !bytes.Equal(stripWS(gotJ), stripWS(wantJ))) {
+				sameDoc := func(a, b []byte) bool {
+					// C12 speaks about the Map: the two texts must decode to the same value (which spelling the wrapper uses is C20's business)
+					ma, ea := mxj.NewMapJson(a)
+					mb, eb := mxj.NewMapJson(b)
+					return ea == nil && eb == nil && reflect.DeepEqual(ma, mb)
+				}
+				if (gerr == nil) != (werr == nil) || (gerr == nil && !sameDoc(gotJ, wantJ)) {
 					return failf("wrapper-mismatch", "j2x.JsonNewJson(%s, %q) = %s (%v); NewMapJson + NewMap gives %s (%v)", listDoc, lp, gotJ, gerr, wantJ, werr)
 				}
 			}
